@@ -1,14 +1,22 @@
 ------------------------------ MODULE TraceBatt ------------------------------
 (***************************************************************************)
 (* Validation of recorded batt_life() runs against Batt.tla.                *)
+(* The observable steps of a run are the calls of the two callbacks; the    *)
+(* solver calls in between are internal steps of the machine (Batt!SetSource*)
+(* and Batt!SolveStep): they are checked where they were observed, but a    *)
+(* run is not required to show them (an implementation may solve once for   *)
+(* several identical steps).                                                *)
 (* A case: [id, battery, known, is_source, cutoff, phases = <<[name,dur]>>, *)
-(*   events = << [k = "probe" | "solve" | "deplete", raised, ...] >>,        *)
-(*   outcome, exc, log = <<<<t, cap, volt, rs>>>>, src0, src1]              *)
-(*   probe  : ret = <<cap, volt, rs>>                                        *)
-(*   solve  : phase, vo, rs = the battery Source's parameters during the    *)
-(*            solve, iref = the battery's Iout in solve(phase) of a deep    *)
-(*            copy taken at that moment (has_ref)                           *)
-(*   deplete: dt, i = the arguments handed to dfunc, ret = <<cap,volt,rs>>  *)
+(*   events = << probe, deplete_1, ..., deplete_D >>, tail, outcome, exc,    *)
+(*   log = <<<<t, cap, volt, rs>>>>, src0, src1]                            *)
+(*   probe  : raised, ret = <<cap, volt, rs>>                                *)
+(*   deplete: raised, dt, i = the arguments handed to dfunc, ret,           *)
+(*            iref (has_ref) = the battery's Iout in solve(phase of the      *)
+(*            step) of a system rebuilt from the projected state with the   *)
+(*            battery at its present state (the state returned last),       *)
+(*            solves = the solver calls observed before the call:           *)
+(*            [phase, vo, rs = the battery Source's parameters, raised]     *)
+(*   tail   : solver calls after the last callback                          *)
 (***************************************************************************)
 EXTENDS Dec, FiniteSets, TLC, Json, IOUtils
 
@@ -20,14 +28,16 @@ Cl(name, app, cond) == <<name, app, IF app THEN cond ELSE TRUE>>
 EqX(a, b) == DLeq(DAbs(a \ominus b), DE(1, -9) \otimes DMax(DAbs(a), DAbs(b)))
 Alive(b, cutoff) == DLt(DZero, DJ(b[1])) /\ DLt(cutoff, DJ(b[2]))
 
-\* control skeleton of the run as Batt.tla prescribes it: probe, then solve/deplete pairs while alive
-Kinds(c) == [j \in DOMAIN c.events |-> c.events[j].k]
+\* control skeleton of the run as Batt.tla prescribes it: probe, then one depletion per step while alive
 NP(c) == Len(c.phases)
 PhaseAt(c, m) == IF NP(c) = 0 THEN "" ELSE c.phases[((m - 1) % NP(c)) + 1].name
 DurAt(c, m)   == DJ(c.phases[((m - 1) % NP(c)) + 1].dur)
 
-\* state of the battery model before step m (m = 1: the probe)
-Before(c, m) == IF m = 1 THEN c.events[1].ret ELSE c.events[2 * m - 1].ret
+\* state of the battery model before step m = the state returned by the previous callback (m = 1: the probe)
+Before(c, m) == c.events[m].ret
+
+\* solver class: 20 tolerance units of the solver's own stopping rule (1e-8 absolute, 1e-5 relative)
+CloseI(a, b) == DLeq(DAbs(a \ominus b), DInt(20) \otimes (DE(1, -8) \oplus (DE(1, -5) \otimes DMax(DAbs(a), DAbs(b)))))
 
 CaseClauses(c) ==
   LET ev     == c.events
@@ -35,16 +45,22 @@ CaseClauses(c) ==
       cut    == DJ(c.cutoff)
       valid  == c.known /\ c.is_source
       probed == n >= 1 /\ ev[1].k = "probe" /\ ~ev[1].raised
-      \* number of complete solve/deplete pairs
-      M      == IF n >= 1 THEN (n - 1) \div 2 ELSE 0
+      \* number of depletion calls (the last one may have raised)
+      ND      == IF n >= 1 THEN n - 1 ELSE 0
+      solverRaised == \E j \in DOMAIN c.tail : c.tail[j].raised
+      lastRaised == solverRaised \/ (n >= 1 /\ ev[n].raised)
       shapeOK == /\ n >= 1 /\ ev[1].k = "probe"
-                 /\ \A j \in 2..n : ev[j].k = (IF j % 2 = 0 THEN "solve" ELSE "deplete")
+                 /\ \A j \in 2..n : ev[j].k = "deplete"
                  /\ \A j \in 1..(n - 1) : ~ev[j].raised
-      lastRaised == n >= 1 /\ ev[n].raised
-      complete == shapeOK /\ ~lastRaised /\ n % 2 = 1
+                 \* a solver call that raised ends the run: it is never followed by a callback
+                 /\ \A j \in 1..n : \A q \in DOMAIN ev[j].solves : ~ev[j].solves[q].raised
+                 /\ solverRaised => ~ev[n].raised
+      complete == shapeOK /\ ~lastRaised
+      \* completed depletion calls
+      M      == IF n >= 1 /\ ev[n].raised THEN ND - 1 ELSE ND
       cap0   == DJ(ev[1].ret[1])
       \* rows the log must have: the probe, then every alive deplete result
-      AliveM == {m \in 1..M : Alive(ev[2 * m + 1].ret, cut)}
+      AliveM == {m \in 1..M : Alive(ev[m + 1].ret, cut)}
   IN
   << Cl("C18.NotASource", ~valid, c.outcome = "exc" /\ c.exc = "ValueError" /\ n = 0),
      Cl("C17.BattRestored", c.known /\ c.is_source, c.src0 = c.src1),
@@ -53,35 +69,38 @@ CaseClauses(c) ==
      Cl("C18.Machine.Outcome", valid /\ shapeOK, (c.outcome = "exc") = lastRaised),
      \* the loop continues exactly while the last battery state is alive
      Cl("C18.Machine.Guard", valid /\ shapeOK /\ probed,
-        /\ \A m \in 1..M : Alive(Before(c, m), cut)
+        /\ \A m \in 1..ND : Alive(Before(c, m), cut)
+        /\ solverRaised => Alive(ev[n].ret, cut)
         /\ complete => ~Alive(ev[n].ret, cut)),
+     \* where a solver call was observed, the battery Source carried the battery's present state ...
      Cl("C18.SetSource", valid /\ shapeOK /\ probed,
-        \A m \in 1..((n) \div 2) :
-           LET b == Before(c, m) s == ev[2 * m] IN s.vo = b[2] /\ s.rs = b[3]),
+        /\ \A m \in 1..ND : \A q \in DOMAIN ev[m + 1].solves :
+              LET b == Before(c, m) sv == ev[m + 1].solves[q] IN sv.vo = b[2] /\ sv.rs = b[3]
+        /\ \A q \in DOMAIN c.tail : c.tail[q].vo = ev[n].ret[2] /\ c.tail[q].rs = ev[n].ret[3]),
+     \* ... and the call was for the phase of the step
      Cl("C18.PhaseOrder", valid /\ shapeOK /\ probed,
-        \A m \in 1..(n \div 2) : ev[2 * m].phase = PhaseAt(c, m)),
+        /\ \A m \in 1..ND : \A q \in DOMAIN ev[m + 1].solves : ev[m + 1].solves[q].phase = PhaseAt(c, m)
+        /\ \A q \in DOMAIN c.tail : c.tail[q].phase = PhaseAt(c, ND + 1)),
      Cl("C18.Dt", valid /\ shapeOK /\ probed,
-        \A m \in 1..M :
-           LET d == ev[2 * m + 1] IN
+        \A m \in 1..ND :
+           LET d == ev[m + 1] IN
            IF NP(c) = 0 THEN EqX(DJ(d.dt) \otimes DJ(d.i), cap0 \otimes DE(36, -1))
            ELSE DEq(DJ(d.dt), DurAt(c, m))),
+     \* the current handed to the model is the battery's steady-state output current for its present voltage and
+     \* impedance in the phase of the step (any converged answer: solver class)
      Cl("C18.Current", valid /\ shapeOK /\ probed,
-        \* (the reference is solved on a system rebuilt from the projected state: its nodes are numbered differently,
-        \*  so sums of child currents may differ in the last bit - exact class, 1e-9 relative)
-        \A m \in 1..M : ev[2 * m].has_ref =>
-           DLeq(DAbs(DJ(ev[2 * m + 1].i) \ominus DJ(ev[2 * m].iref)),
-                DE(1, -9) \otimes (DAbs(DJ(ev[2 * m + 1].i)) \oplus DAbs(DJ(ev[2 * m].iref))))),
+        \A m \in 1..ND : ev[m + 1].has_ref => CloseI(DJ(ev[m + 1].i), DJ(ev[m + 1].iref))),
      Cl("C18.LogInitial", valid /\ c.outcome = "ok" /\ probed,
         Len(c.log) >= 1 /\ DIsZero(DJ(c.log[1][1])) /\ SubSeq(c.log[1], 2, 4) = ev[1].ret),
      Cl("C18.LogPrefix", valid /\ c.outcome = "ok" /\ complete /\ probed,
         /\ Len(c.log) = 1 + Cardinality(AliveM)
         /\ AliveM = 1..Cardinality(AliveM)
-        /\ \A m \in AliveM : SubSeq(c.log[m + 1], 2, 4) = ev[2 * m + 1].ret
+        /\ \A m \in AliveM : SubSeq(c.log[m + 1], 2, 4) = ev[m + 1].ret
         /\ \A j \in DOMAIN c.log : j >= 2 => Alive(SubSeq(c.log[j], 2, 4), cut)),
      Cl("C18.TimeIncreasing", valid /\ c.outcome = "ok" /\ complete /\ probed /\ Len(c.log) = 1 + Cardinality(AliveM),
         \A m \in AliveM :
            /\ DLt(DJ(c.log[m][1]), DJ(c.log[m + 1][1]))
-           /\ EqX(DJ(c.log[m + 1][1]), DJ(c.log[m][1]) \oplus DJ(ev[2 * m + 1].dt)))
+           /\ EqX(DJ(c.log[m + 1][1]), DJ(c.log[m][1]) \oplus DJ(ev[m + 1].dt)))
   >>
 
 AllClauseNames == {"C18.NotASource", "C17.BattRestored", "C18.Machine.Shape", "C18.Machine.Outcome", "C18.Machine.Guard",
